@@ -301,6 +301,13 @@ func (e *seqEval) seq(a AV) (seqVal, bool) {
 		if v.Low == nil && v.High == nil && v.Max == nil {
 			return e.seq(AV{a.Act, v.X})
 		}
+		if v.Low == nil && v.High != nil && v.Max == nil {
+			if k, ok := v.High.(*ssa.Phi); ok {
+				if l := loopWithHeader(a.Act.Fn, k.Block()); l != nil && !l.Blocks[v.Block()] {
+					return e.compacted(a, v, k, l)
+				}
+			}
+		}
 		return e.undecided("%s: a sub-slice", e.c.P.Pos(v.Pos()))
 	case *ssa.Call:
 		if b, ok := v.Call.Value.(*ssa.Builtin); ok {
@@ -359,6 +366,11 @@ func (e *seqEval) seq(a AV) (seqVal, bool) {
 			return e.rets(sub, 0)
 		}
 		return e.undecided("%s: the list comes from %s", e.c.P.Pos(v.Pos()), name)
+	case *ssa.MakeSlice:
+		if isConstInt(v.Len, 0) {
+			return e.empty(), true
+		}
+		return e.undecided("%s: a list made with a length", e.c.P.Pos(v.Pos()))
 	case *ssa.Phi:
 		blk := v.Block()
 		if l := loopWithHeader(a.Act.Fn, blk); l != nil {
@@ -386,6 +398,115 @@ func (e *seqEval) seq(a AV) (seqVal, bool) {
 		return e.merge(vals, conds)
 	}
 	return e.undecided("the list is derived from %s", a.V.String())
+}
+
+// compacted: x[:k] after a complete range loop that moves the elements it keeps to the front of x
+// ("x[k] = element; k++", k starting at 0): the elements of the ranged view for which the store is
+// reached, in their order.  A write position never overtakes the read position, so what the loop
+// reads is what the list held.
+func (e *seqEval) compacted(a AV, sl *ssa.Slice, k *ssa.Phi, l *Loop) (seqVal, bool) {
+	u := e.u
+	act := a.Act
+	ro := rangedOver(l)
+	if ro == nil || ro.Kind != "index" || !ro.Full {
+		return e.undecided("%s: elements are moved in a loop that is not a complete range over a slice", e.c.P.Pos(sl.Pos()))
+	}
+	for _, ex := range l.Exits {
+		if ex[0] != l.Header {
+			return e.undecided("%s: the compacting loop is left early", e.c.P.Pos(sl.Pos()))
+		}
+	}
+	listE := act.Env[sl.X]
+	collE := act.Env[ro.Coll]
+	if listE == nil || collE == nil {
+		return e.undecided("compaction: list unresolved")
+	}
+	var st *ssa.Store
+	for b := range l.Blocks {
+		for _, in := range b.Instrs {
+			s2, ok := in.(*ssa.Store)
+			if !ok {
+				continue
+			}
+			ia, ok := s2.Addr.(*ssa.IndexAddr)
+			if !ok || act.Env[ia.X] != listE {
+				continue
+			}
+			if st != nil || ia.Index != ssa.Value(k) {
+				return e.undecided("%s: the list is written at a position other than the count of the elements kept", e.c.P.Pos(s2.Pos()))
+			}
+			st = s2
+		}
+	}
+	if st == nil {
+		return e.undecided("%s: a prefix of the list up to a loop counter, but nothing is moved", e.c.P.Pos(sl.Pos()))
+	}
+	// the counter: 0 at the start, +1 exactly where the store is
+	var incs []*ssa.BinOp
+	seen := map[ssa.Value]bool{}
+	var walk func(v ssa.Value) bool
+	walk = func(v ssa.Value) bool {
+		if v == ssa.Value(k) || seen[v] {
+			return true
+		}
+		seen[v] = true
+		switch y := v.(type) {
+		case *ssa.BinOp:
+			if y.Op != token.ADD || y.X != ssa.Value(k) || !isConstInt(y.Y, 1) {
+				return false
+			}
+			incs = append(incs, y)
+			return true
+		case *ssa.Phi:
+			if !l.Blocks[y.Block()] {
+				return false
+			}
+			for _, ed := range y.Edges {
+				if !walk(ed) {
+					return false
+				}
+			}
+			return true
+		}
+		return false
+	}
+	for i, ed := range k.Edges {
+		if !l.Blocks[k.Block().Preds[i]] {
+			if !isConstInt(ed, 0) {
+				return e.undecided("compaction: the count does not start at 0")
+			}
+			continue
+		}
+		if !walk(ed) {
+			return e.undecided("compaction: the count is not advanced by one")
+		}
+	}
+	if len(incs) != 1 || act.RCAt(incs[0]) != act.RCAt(st) {
+		return e.undecided("%s: the count of the elements kept is not advanced exactly where an element is moved", e.c.P.Pos(st.Pos()))
+	}
+	if ve := act.Env[st.Val]; ve == nil || ve.Op != "index" || ve.Args[0] != collE {
+		return e.undecided("%s: the element moved is not the element visited", e.c.P.Pos(st.Pos()))
+	}
+	// the list written is the one ranged over (or the fresh list a view of which is ranged over)
+	dst, ok := e.seq(AV{act, sl.X})
+	if !ok {
+		return dst, false
+	}
+	if dst.base != "ALL" || dst.appElem != nil {
+		return e.undecided("%s: the elements kept are written into a list that is not DNSRewritesAll()'s", e.c.P.Pos(sl.Pos()))
+	}
+	src, ok := e.seq(AV{act, ro.Coll})
+	if !ok {
+		return src, false
+	}
+	if src.base != "ALL" || src.appElem != nil {
+		return e.undecided("compaction: ranged list unresolved")
+	}
+	p, _, ok := e.closePred(act, l, act.RCAt(st), e.nu)
+	if !ok {
+		return seqVal{}, false
+	}
+	return seqVal{base: "ALL", drop: u.bdd.Or(src.drop, u.bdd.Not(p)), app: False, def: src.def}, true
 }
 
 // summarise: the value of a loop-carried list after the loop.
@@ -579,6 +700,12 @@ func seqDecide(c *Ctx, dr, dra *ssa.Function, kImp int64) (decided bool, bad str
 	}
 	carried := func(f Ref) *E {
 		for _, at := range u.AtomsOf(f) {
+			// the emptiness of a list of rules built in a loop is read as a search below
+			if at.Op == "eq" && at.Args[0].Op == "len" && isIntConst(at.Args[1], 0) && at.Args[0].Args[0].Op == "loopphi" && at.Args[0].Args[0].Typ != nil {
+				if st, isSl := at.Args[0].Args[0].Typ.Underlying().(*types.Slice); isSl && types.Identical(st.Elem(), nrT) {
+					continue
+				}
+			}
 			if at.Op != "exists" && u.Mentions(at, func(x *E) bool { return x.Op == "loopphi" || x.Op == "loopval" || x.Op == "havoc" }) {
 				return at
 			}
@@ -729,7 +856,9 @@ func seqDecide(c *Ctx, dr, dra *ssa.Function, kImp int64) (decided bool, bad str
 					continue
 				}
 				if m, why := resolve(coll); why == "" {
-					D = u.bdd.Compose(D, u.atomIx[at.key], u.bdd.Not(u.Exists(draCallOr(draCall, coll), u.SubstBool(m, map[string]*E{X.key: u.BVar(69, nrT)}))))
+					// (ν is an element of DNSRewritesAll() too: an empty sub-list does not hold it either)
+					mNu := u.SubstBool(m, map[string]*E{X.key: e.nu})
+					D = u.bdd.Compose(D, u.atomIx[at.key], u.bdd.Not(u.bdd.Or(mNu, u.Exists(draCallOr(draCall, coll), u.SubstBool(m, map[string]*E{X.key: u.BVar(69, nrT)})))))
 				}
 			}
 		}
@@ -1076,6 +1205,30 @@ func (e *seqEval) resolveFlags(f Ref, depth int) Ref {
 			if ok {
 				f = u.bdd.Compose(f, u.atomIx[at.key], flag)
 			}
+		case (at.Op == "eq" || at.Op == "lt") && len(at.Args) == 2 && (at.Args[0].Op == "loopphi" || at.Args[1].Op == "loopphi"):
+			// a counter: "n == 0" after a scan that counts the elements with P says that no element
+			// has P ("0 < n": that some element has)
+			var x *E
+			var zeroIsTrue bool
+			switch {
+			case at.Op == "eq" && at.Args[0].Op == "loopphi" && isIntConst(at.Args[1], 0):
+				x, zeroIsTrue = at.Args[0], true
+			case at.Op == "eq" && at.Args[1].Op == "loopphi" && isIntConst(at.Args[0], 0):
+				x, zeroIsTrue = at.Args[1], true
+			case at.Op == "lt" && at.Args[1].Op == "loopphi" && isIntConst(at.Args[0], 0):
+				x, zeroIsTrue = at.Args[1], false
+			case at.Op == "lt" && at.Args[0].Op == "loopphi" && isIntConst(at.Args[1], 1):
+				x, zeroIsTrue = at.Args[0], true
+			}
+			if x == nil {
+				continue
+			}
+			if some, ok := e.counted(x); ok {
+				if zeroIsTrue {
+					some = u.bdd.Not(some)
+				}
+				f = u.bdd.Compose(f, u.atomIx[at.key], some)
+			}
 		case at.Op == "exists":
 			pr := u.ToBool(at.Args[1])
 			npr := e.resolveFlags(pr, depth+1)
@@ -1085,6 +1238,88 @@ func (e *seqEval) resolveFlags(f Ref, depth int) Ref {
 		}
 	}
 	return f
+}
+
+// counted: x is an integer carried around a range loop that starts at 0 and is only ever incremented
+// by a positive constant; the result says "some iteration incremented it".
+func (e *seqEval) counted(x *E) (Ref, bool) {
+	u := e.u
+	for _, act := range append([]*Summary{e.top}, e.g.Subs...) {
+		for v, ex := range act.Env {
+			ph, isPhi := v.(*ssa.Phi)
+			if ex != x || !isPhi {
+				continue
+			}
+			bt, isB := ph.Type().Underlying().(*types.Basic)
+			if !isB || bt.Info()&types.IsInteger == 0 {
+				return False, false
+			}
+			l := loopWithHeader(act.Fn, ph.Block())
+			if l == nil {
+				return False, false
+			}
+			var incs []ssa.Instruction
+			seen := map[ssa.Value]bool{}
+			var walk func(v ssa.Value) bool
+			walk = func(v ssa.Value) bool {
+				if v == ph || seen[v] {
+					return true
+				}
+				seen[v] = true
+				switch y := v.(type) {
+				case *ssa.BinOp:
+					if y.Op != token.ADD {
+						return false
+					}
+					k, other := y.Y, y.X
+					if _, isK := k.(*ssa.Const); !isK {
+						k, other = y.X, y.Y
+					}
+					kc, isK := k.(*ssa.Const)
+					if !isK || kc.Value == nil || kc.Int64() < 1 {
+						return false
+					}
+					incs = append(incs, y)
+					return walk(other)
+				case *ssa.Phi:
+					if !l.Blocks[y.Block()] {
+						return false
+					}
+					for _, ed := range y.Edges {
+						if !walk(ed) {
+							return false
+						}
+					}
+					return true
+				}
+				return false
+			}
+			for i, ed := range ph.Edges {
+				if !l.Blocks[ph.Block().Preds[i]] {
+					if !isConstInt(ed, 0) {
+						return False, false
+					}
+					continue
+				}
+				if !walk(ed) {
+					return False, false
+				}
+			}
+			if len(incs) == 0 {
+				return False, false
+			}
+			some := False
+			for _, in := range incs {
+				c2, ok := e.existsIn(act, in, act.RCAt(in))
+				if !ok {
+					return False, false
+				}
+				some = u.bdd.Or(some, c2)
+			}
+			return some, true
+		}
+	}
+	return False, false
 }
 
 // carriedListMember: coll is a list kept in a field of a local object and appended to inside a
